@@ -1,80 +1,155 @@
 package gosym
 
+import "go/types"
+
 // LazyJSON: an arbitrary JSON tree whose shape is decided when the code first looks.
 
 type lazyState struct {
 	depth, width int
 	keyMenu      []string
 	resolved     *jnode
-	id           int
+	forced       *iface
+	nonNull      bool
+	excluded     map[jkind]bool // kinds ruled out by an earlier typed decode that mismatched
 }
 
+var allJSONKinds = []jkind{jBool, jFloat, jStr, jArr, jObj}
+
+// resolveLazy decides the kind of a lazy node among all JSON kinds (inspection through interface{}).
 func (ex *exec) resolveLazy(n *jnode) *jnode {
+	r, _ := ex.resolveLazyFor(n, allJSONKinds, nil, false)
+	return r
+}
+
+// resolveLazyFor decides the kind of a lazy node for a typed decode target: null (unless excluded), each kind
+// the target accepts, and one representative of "any other kind" (all of which encoding/json treats alike:
+// UnmarshalTypeError, target untouched). structKeys, if given, is the key menu of an object.
+func (ex *exec) resolveLazyFor(n *jnode, want []jkind, structKeys []string, withMismatch bool) (*jnode, bool) {
 	ls := n.lazy
 	if ls.resolved != nil {
-		return ls.resolved
+		return ls.resolved, false
 	}
 	tt := ex.tt
-	// kinds: null, bool, number, string, array, object (arrays/objects only while depth remains)
-	nk := 4
-	if ls.depth > 0 {
-		nk = 6
+	type opt struct {
+		kind     jkind
+		mismatch bool
 	}
-	opts := make([]*Term, nk)
-	for i := range opts {
-		opts[i] = tt.Bool(true)
+	var opts []opt
+	if !ls.nonNull {
+		opts = append(opts, opt{kind: jNull})
 	}
-	k := ex.decide("jsonkind", opts)
-	ex.lazyLog = append(ex.lazyLog, k)
+	has := map[jkind]bool{}
+	for _, k := range want {
+		if (k == jArr || k == jObj) && ls.depth <= 0 {
+			continue
+		}
+		if ls.excluded[k] {
+			continue
+		}
+		opts = append(opts, opt{kind: k})
+		has[k] = true
+	}
+	if withMismatch {
+		// some kind must remain that is neither accepted by this target nor already ruled out
+		for _, k := range allJSONKinds {
+			if (k == jArr || k == jObj) && ls.depth <= 0 {
+				continue
+			}
+			if !has[k] && !ls.excluded[k] {
+				opts = append(opts, opt{mismatch: true})
+				break
+			}
+		}
+	}
+	if len(opts) == 0 {
+		opts = append(opts, opt{kind: jNull})
+	}
+	ts := make([]*Term, len(opts))
+	for i := range ts {
+		ts[i] = tt.Bool(true)
+	}
+	k := 0
+	if len(opts) > 1 {
+		k = ex.decide("jsonkind", ts)
+	}
+	o := opts[k]
 	var r *jnode
-	switch k {
-	case 0:
+	if o.mismatch {
+		// stays unresolved: only the kinds this target accepts (and null) are ruled out
+		if ls.excluded == nil {
+			ls.excluded = map[jkind]bool{}
+		}
+		for _, k := range want {
+			ls.excluded[k] = true
+		}
+		ls.nonNull = true
+		return nil, true
+	}
+	child := func() *jnode {
+		return &jnode{kind: jLazy, lazy: &lazyState{depth: ls.depth - 1, width: ls.width, keyMenu: ls.keyMenu}}
+	}
+	switch o.kind {
+	case jNull:
 		r = &jnode{kind: jNull}
-	case 1:
-		r = &jnode{kind: jBool, v: ex.nondet("bool", SBool, 1 /*types.Bool*/)}
-	case 2:
-		v := ex.nondet("float64", SF64, 14 /*types.Float64*/).(sym)
+	case jBool:
+		r = &jnode{kind: jBool, v: sym{ex.freshVar("jbool", SBool), types.Bool}}
+	case jFloat:
+		v := sym{ex.freshVar("jnum", SF64), types.Float64}
 		ex.assertPC(tt.Not(tt.Or(tt.FIsNaN(v.t), tt.FIsInf(v.t))))
 		r = &jnode{kind: jFloat, v: v}
-	case 3:
-		r = &jnode{kind: jStr, v: ex.nondet("string", SStr, 17 /*types.String*/)}
-	case 4:
+	case jStr:
+		r = &jnode{kind: jStr, v: sym{ex.freshVar("jstr", SStr), types.String}}
+	case jArr:
 		lo := make([]*Term, ls.width+1)
 		for i := range lo {
 			lo[i] = tt.Bool(true)
 		}
 		ln := ex.decide("jsonlen", lo)
-		ex.lazyLog = append(ex.lazyLog, ln)
 		r = &jnode{kind: jArr, arr: make([]*jnode, ln)}
 		for i := range r.arr {
-			r.arr[i] = &jnode{kind: jLazy, lazy: &lazyState{depth: ls.depth - 1, width: ls.width, keyMenu: ls.keyMenu}}
+			r.arr[i] = child()
 		}
-	case 5:
-		// object: each menu key present or absent (bounded by width), plus optionally one unknown key
+	case jObj:
 		r = &jnode{kind: jObj}
-		menu := append(append([]string(nil), ls.keyMenu...), "zz_other")
+		menu := structKeys
+		if menu == nil {
+			menu = ls.keyMenu
+		}
+		menu = append(append([]string(nil), menu...), "zz_other")
 		for _, key := range menu {
 			if len(r.keys) >= ls.width {
 				break
 			}
-			present := ex.decide("jsonkey", []*Term{tt.Bool(true), tt.Bool(true)})
-			ex.lazyLog = append(ex.lazyLog, present)
-			if present == 1 {
+			if ex.decide("jsonkey", []*Term{tt.Bool(true), tt.Bool(true)}) == 1 {
 				r.keys = append(r.keys, key)
-				r.vals = append(r.vals, &jnode{kind: jLazy, lazy: &lazyState{depth: ls.depth - 1, width: ls.width, keyMenu: ls.keyMenu}})
+				r.vals = append(r.vals, child())
 			}
 		}
 	}
 	ls.resolved = r
-	return r
+	return r, false
 }
 
-// concretize renders a (lazy) tree as JSON text under a model; unresolved parts become null.
+// concretizeJSON renders a (lazy) tree as JSON text under a model; unresolved parts become null.
 func (ex *exec) concretizeJSON(n *jnode, model map[string]interface{}) string {
 	switch n.kind {
 	case jLazy:
 		if n.lazy.resolved == nil {
-			return "null"
+			if !n.lazy.nonNull {
+				return "null"
+			}
+			switch ex2 := n.lazy.excluded; {
+			case !ex2[jBool]:
+				return "true"
+			case !ex2[jFloat]:
+				return "0"
+			case !ex2[jStr]:
+				return "\"x\""
+			case !ex2[jArr] && n.lazy.depth > 0:
+				return "[]"
+			default:
+				return "{}"
+			}
 		}
 		return ex.concretizeJSON(n.lazy.resolved, model)
 	case jArr:
@@ -114,8 +189,10 @@ func (ex *exec) modelValue(v value, model map[string]interface{}) value {
 			switch x := mv.(type) {
 			case uint64:
 				return fromTerm(ex.tt.BV(s.t.sort, x), s.k)
-			case bool, float64, string:
+			case bool, float64:
 				return x
+			case string:
+				return ex.replayString(s.t, x, model)
 			}
 		}
 	}
